@@ -18,8 +18,12 @@ definitions the driver executes, with the constants of the tree (`Generated.Cons
 namespace C19
 open Stream
 
-/-- the constants of the tree: slottools.EpochLen, `batchSize` of processSlotTransactions, maxSlotsToStream -/
-def P : Params := ⟨Generated.epochLen, Generated.streamGsfaBatchSize, Generated.maxSlotsToStream⟩
+/-- the constants of the tree: slottools.EpochLen, `batchSize` of processSlotTransactions, maxSlotsToStream; `hb` says
+whether the address-index reader honours `before` (measured by the harness; every theorem holds for both values) -/
+def PP (hb : Bool) : Params := ⟨Generated.epochLen, Generated.streamGsfaBatchSize, Generated.maxSlotsToStream, hb⟩
+
+variable {hb : Bool}
+local notation "P" => PP hb
 
 theorem flatMap_ite_singleton {α : Type} (p : α → Bool) (l : List α) :
     l.flatMap (fun b => if p b then [b] else []) = l.filter p := by
@@ -147,7 +151,7 @@ def exEs : List Epoch :=
                             { slot := 432002, txs := [ ⟨432002, 0, [2], [], true, true⟩, ⟨432002, 1, [7, 1], [], false, false⟩ ] } ] } ]
 
 theorem exEs_wf : WF P exEs := by
-  refine ⟨by decide, by decide, by decide, by decide, by decide, by decide⟩
+  cases hb <;> refine ⟨by decide, by decide, by decide, by decide, by decide, by decide⟩
 
 def exFilter : Filter := { vote := some false, failed := none, inc := [7], exc := [3], req := [1] }
 
@@ -155,18 +159,18 @@ theorem exFilter_fits : WindowFits P exEs 431998 432002 exFilter := by
   intro a ha
   simp only [exFilter, List.mem_singleton] at ha
   subst ha
-  decide
+  cases hb <;> decide
 
-example : streamBlocks P exEs 431998 (some 432002) (some [3]) = [exEs[0].blocks[0], exEs[0].blocks[1]] := by decide
-example : (streamBlocks P exEs 431999 (some 432002) none).map (·.slot) = [431999, 432000, 432002] := by decide
+example : streamBlocks P exEs 431998 (some 432002) (some [3]) = [exEs[0].blocks[0], exEs[0].blocks[1]] := by cases hb <;> decide
+example : (streamBlocks P exEs 431999 (some 432002) none).map (·.slot) = [431999, 432000, 432002] := by cases hb <;> decide
 example : (streamTransactions P exEs 431998 (some 432002) none false).map (fun t => (t.slot, t.pos)) =
-    [(431998, 0), (431998, 1), (431999, 0), (432000, 0), (432002, 0), (432002, 1)] := by decide
+    [(431998, 0), (431998, 1), (431999, 0), (432000, 0), (432002, 0), (432002, 1)] := by cases hb <;> decide
 example : (streamTransactions P exEs 431998 (some 432002) (some exFilter) false).map (fun t => (t.slot, t.pos)) =
-    [(431998, 0), (432000, 0), (432002, 1)] := by decide
+    [(431998, 0), (432000, 0), (432002, 1)] := by cases hb <;> decide
 /-- the index path is really taken (readers non-empty, include list non-empty) and gives the same answer -/
 example : gsfaLoaded P exEs true 431998 432002 = true ∧
     streamTransactions P exEs 431998 (some 432002) (some exFilter) true =
-      streamTransactions P exEs 431998 (some 432002) (some exFilter) false := by decide
+      streamTransactions P exEs 431998 (some 432002) (some exFilter) false := by cases hb <;> decide
 example : streamTransactions P exEs 431998 (some 432002) (some exFilter) true =
     (txsIn exEs 431998 432002).filter (fun t => decide (wantTx (some exFilter) t)) :=
   streamTx_spec_partial exEs_wf 431998 (some 432002) (some exFilter) true (fun fl hf _ => by cases hf; exact exFilter_fits)
@@ -175,18 +179,27 @@ example : ∃ t, wantTx (some exFilter) t ∧ ∃ t', ¬ wantTx (some exFilter) 
 
 /-! ## the window hypothesis cannot be dropped (known finding) -/
 
-/-- one epoch: a transaction of account 7 in slot 432000, then `batchSize` more in slot 432001 -/
+/-- one epoch, one block: `batchSize + 1` transactions of account 7 in slot 432000 -/
 def busyEs : List Epoch :=
-  [ { num := 1, blocks := [ { slot := 432000, txs := [ ⟨432000, 0, [7], [], false, false⟩ ] },
-                            { slot := 432001, txs := (List.range P.batch).map fun i => ⟨432001, i, [7], [], false, false⟩ } ] } ]
+  [ { num := 1, blocks := [ { slot := 432000, txs := (List.range (Generated.streamGsfaBatchSize + 1)).map fun i => ⟨432000, i, [7], [], false, false⟩ } ] } ]
 
 def busyFilter : Filter := { vote := none, failed := none, inc := [7], exc := [], req := [] }
 
-/-- with the address index the stream over slot 432000 is empty, without it it holds the transaction: the
-`batchSize` newest entries of the account all lie behind the range -/
+/-- with the address index the stream over slot 432000 lacks the first transaction of the block (the walk stops
+after the `batchSize` newest entries), without it the stream is complete — whether or not the reader honours `before` -/
 theorem window_loses_transactions :
-    streamTransactions P busyEs 432000 (some 432000) (some busyFilter) true = [] ∧
-    streamTransactions P busyEs 432000 (some 432000) (some busyFilter) false = [⟨432000, 0, [7], [], false, false⟩] := by
+    (streamTransactions P busyEs 432000 (some 432000) (some busyFilter) true).length = Generated.streamGsfaBatchSize ∧
+    (streamTransactions P busyEs 432000 (some 432000) (some busyFilter) false).length = Generated.streamGsfaBatchSize + 1 ∧
+    ⟨432000, 0, [7], [], false, false⟩ ∉ streamTransactions P busyEs 432000 (some 432000) (some busyFilter) true := by
+  cases hb <;> decide
+
+/-- on the pinned reader (`before` not honoured) entries *behind* the range use up the window as well: a
+transaction of slot 432000 is lost to `batchSize` entries of slot 432001 -/
+theorem window_loses_transactions_behind_range :
+    streamTransactions (PP false)
+      [ { num := 1, blocks := [ { slot := 432000, txs := [ ⟨432000, 0, [7], [], false, false⟩ ] },
+                                { slot := 432001, txs := (List.range Generated.streamGsfaBatchSize).map fun i => ⟨432001, i, [7], [], false, false⟩ } ] } ]
+      432000 (some 432000) (some busyFilter) true = [] := by
   decide
 
 /-! ## the pinned tree -/
@@ -214,10 +227,10 @@ theorem pinned_failed_false_ignores_status (g : Bool) (f : Filter) (t : Tx) (hv 
 
 /-- defect 2: the pinned block scan ends at the first slot without a block -/
 theorem pinned_scan_stops_at_gap :
-    scanSlotsPinned P exEs (fun b => b.txs) 432000 (nSlots 432000 432002) ≠ txsIn exEs 432000 432002 := by decide
+    scanSlotsPinned P exEs (fun b => b.txs) 432000 (nSlots 432000 432002) ≠ txsIn exEs 432000 432002 := by cases hb <;> decide
 
 /-- the repaired loop on the same input -/
-example : scanSlots P exEs (fun b => b.txs) 432000 (nSlots 432000 432002) = txsIn exEs 432000 432002 := by decide
+example : scanSlots P exEs (fun b => b.txs) 432000 (nSlots 432000 432002) = txsIn exEs 432000 432002 := by cases hb <;> decide
 
 /-- defect 7 (found by the harness): the pinned closure looks at static keys only, so an excluded account that is
 table-loaded is not seen -/
